@@ -74,8 +74,20 @@ func (ctx *Context) Apply(seq []glyph.Info) []glyph.Info {
 		ctx.lookup = ctx.ll[lookupIndex]
 		ctx.keep = newKeepFunc(ctx.ll[lookupIndex].Meta, ctx.gdef)
 
+		if isReverseLookup(ctx.lookup) {
+			// GSUB 8.1: processing of the glyph string begins at the end
+			// of the string and proceeds to the beginning.  There are no
+			// nested lookups and the length does not change.
+			for pos := len(ctx.seq) - 1; pos >= 0; pos-- {
+				if ctx.keep.Keep(ctx.seq[pos].GID) {
+					ctx.applyAt(ctx.lookup.Subtables, pos, len(ctx.seq))
+				}
+			}
+			seq = ctx.seq
+			continue
+		}
+
 		pos := 0
-		// TODO(voss): GSUB 8.1 subtables are applied in reverse order.
 		for pos < len(ctx.seq) {
 			oldTodo := len(ctx.seq) - pos
 			pos = ctx.applyAtRecursively(pos)
@@ -91,6 +103,20 @@ func (ctx *Context) Apply(seq []glyph.Info) []glyph.Info {
 		seq = ctx.seq
 	}
 	return seq
+}
+
+// isReverseLookup reports whether all subtables of the lookup are reverse
+// chaining contextual single substitutions (GSUB lookup type 8).
+func isReverseLookup(l *LookupTable) bool {
+	if len(l.Subtables) == 0 {
+		return false
+	}
+	for _, s := range l.Subtables {
+		if _, ok := s.(*Gsub8_1); !ok {
+			return false
+		}
+	}
+	return true
 }
 
 // applyAtRecursively applies a single lookup to the given glyphs at position
